@@ -6,13 +6,15 @@
 -/
 import PgVerif.Proofs.Rows
 import PgVerif.Proofs.HeapFile
+import PgVerif.Proofs.InlineCompSize
 namespace PgVerif.Props.C10.Rows
 open PgVerif PgVerif.Model PgVerif.Proofs PgVerif.Proofs.Rows
 
 /-- a scalar decoder that returns for every input -/
 def TotalDec (dec : Dec) : Prop := ∀ b t, ∃ v, dec b t = .ok v
 
-/-- ReadVarlena returns for every byte string: every index and slice in it is guarded. -/
+/-- ReadVarlena returns for every byte string: every index and slice in it is guarded, and the decompressors of the
+inline-compressed branch (fix 09) return for every stream and every claimed raw size. -/
 theorem C10_total_readVarlena (data : Bytes) : ∃ r, readVarlena data = .ok r := by
   unfold readVarlena
   by_cases h0 : data.length = 0
@@ -35,7 +37,65 @@ theorem C10_total_readVarlena (data : Bytes) : ∃ r, readVarlena data = .ok r :
           simp only [ok_bind]
           split
           · exact ⟨_, rfl⟩
-          · rw [slice_ok _ _ _ (by omega) (by omega)]; exact ⟨_, rfl⟩
+          · split
+            · obtain ⟨v, hv⟩ := InlineComp.inlineDecompress_total data (rd 4 (data.drop 0) / 4) (by omega) (by omega)
+              rw [hv]; exact ⟨_, rfl⟩
+            · rw [slice_ok _ _ _ (by omega) (by omega)]; exact ⟨_, rfl⟩
+
+/-- The inline-compressed branch of ReadVarlena (fix 09) returns for every byte string once ReadVarlena's own guards hold:
+every stream (truncated tags, offsets before the start of the output, literal runs off the end), every claimed raw size,
+every method value 0..3. -/
+theorem C10_total_inlineDecompress (data : Bytes) (total : Nat) (h8 : 8 ≤ total) (hl : total ≤ data.length) :
+    ∃ r, inlineDecompress data total = .ok r :=
+  InlineComp.inlineDecompress_total data total h8 hl
+
+/-- **Size, in the input.**  Whatever ReadVarlena returns for ANY byte string: it consumes at most the input (or the 18 / 4 /
+1 bytes of a header it rejects), and the value it returns has at most 255 bytes per input byte (LZ4's densest encoding;
+plain values: at most the input itself) — the 30-bit raw-size field of va_tcinfo, which a hostile file sets freely, is
+no bound on what is produced: a stream that does not yield exactly that many bytes gives nil. -/
+theorem C10_size_readVarlena (data v : Bytes) (n : Nat) (h : readVarlena data = .ok (some v, n)) :
+    v.length ≤ 255 * data.length ∧ n ≤ data.length := by
+  unfold readVarlena at h
+  by_cases h0 : data.length = 0
+  · rw [if_pos h0] at h; cases h
+  · rw [if_neg h0, idx_ok data 0 (by omega)] at h
+    simp only [ok_bind] at h
+    split at h
+    · split at h
+      · cases h
+      · rename_i hc
+        rw [slice_ok _ _ _ (by omega) (by omega)] at h
+        simp only [ok_bind, pure_eq_ok, Except.ok.injEq, Prod.mk.injEq, Option.some.injEq] at h
+        obtain ⟨hv, hn⟩ := h
+        subst hv; subst hn
+        simp only [List.length_drop, List.length_take]; omega
+    · split at h
+      · split at h
+        · rw [idx_ok data 1 (by omega)] at h
+          simp only [ok_bind] at h
+          split at h <;> cases h
+        · cases h
+      · split at h
+        · cases h
+        · rw [uN_ok 4 data 0 (by omega)] at h
+          simp only [ok_bind] at h
+          split at h
+          · cases h
+          · rename_i hc
+            split at h
+            · rename_i hz
+              obtain ⟨w, hw⟩ := InlineComp.inlineDecompress_total data (rd 4 (data.drop 0) / 4) (by omega) (by omega)
+              rw [hw] at h
+              simp only [ok_bind, pure_eq_ok, Except.ok.injEq, Prod.mk.injEq] at h
+              obtain ⟨hv, hn⟩ := h
+              subst hv; subst hn
+              have := (InlineComp.inlineDecompress_size data _ v hz.2 (by omega) hw).1
+              omega
+            · rw [slice_ok _ _ _ (by omega) (by omega)] at h
+              simp only [ok_bind, pure_eq_ok, Except.ok.injEq, Prod.mk.injEq, Option.some.injEq] at h
+              obtain ⟨hv, hn⟩ := h
+              subst hv; subst hn
+              simp only [List.length_drop, List.length_take]; omega
 
 /-- readValue returns for every data, offset, type oid and attlen (negative, zero, huge …) as long as the
 scalar decoder does. -/
